@@ -28,38 +28,44 @@ RULE = ('Documents "at version K" are generated offline for every K in 0..SCHEMA
         'at least one migration runs or the document has user tables.')
 TRUSTED = ['Model/Migrate.v is hand-written: TableDataSet (14 actions + exception classes) and the driver of '
            'create_migrations; compared with the running code on every run (vm_compute, exact states)',
-           'the 46 migration bodies and the loading prelude of create_migrations (build_schema, AddTable/BulkAddRecord '
-           'of the input) are NOT modelled: the driver theorems quantify over arbitrary migration functions',
+           'Model/MigrateBodies.v: the BODIES of all 46 migrations are modelled - 21 by hand (1, 2, 3, 4, 7, 10, 15, 16, '
+           '17, 20, 25, 26, 28, 29, 30, 31, 34, 35, 39, 40, 45), 25 translated from migrations.py on every run as constant '
+           'action lists (coq/gen/MigrateConst_gen.v; fail closed) - and each is compared on every run with the actions '
+           'the real migration emitted, on the exact tdset it ran on, for generated documents of every version',
+           'oracles inside the body models (arbitrary functions, tabulated from the real run for the tie): json.loads / '
+           'json.dumps, int(x / 1000), str() of a JSON value, re (summary_re.match, re.sub), '
+           'identifiers.pick_col_ident / pick_table_ident (their own properties are C21)',
+           'still NOT modelled: the loading prelude of create_migrations (build_schema, AddTable/BulkAddRecord of the input)',
            'monitor: every migration returns tdset.apply_doc_actions(...) and mutates the tdset in no other way '
            '(AST check + final tdset compared with the model)',
-           'row ids are ints or None and column ids are strings in the model; other documents are skipped and counted',
-           'Model/MigrateSites.v is hand-written: the raise behaviour of the six places where migrations 15, 16, 29, 34, '
-           '35, 45 read JSON out of a Text cell; compared each run with the real migrations on one-cell documents; '
-           'json.loads itself is trusted']
-ASSUMPTIONS = ['premise of the search: metadata cells hold values of their declared types as stored in the document '
-               'file; metadata is referentially consistent (tables have columns, a view section names a table, '
-               'old-style summary names carry existing column refs)',
+           'row ids are ints or None, column ids are strings; floats are never printed (str of a float) and nan is never '
+           'ordered in the model: documents outside that domain are skipped and counted',
+           'Model/MigrateSites.v: raise-only model of the six JSON-reading sites (kept; now subsumed by the body models)']
+ASSUMPTIONS = ['premise of the search and of the totality theorems: metadata cells hold values of their declared types as '
+               'stored in the document file, metadata is referentially consistent; each theorem states its own premise as a '
+               'decidable check (pre4 .. pre45 in Model/MigrateBodies.v) that the harness evaluates on every generated '
+               'document just before the real migration runs on it',
                'C25_version_after_migration: _grist_DocInfo still has record 1 first and a schemaVersion column when '
                'the final update is applied (checked on every generated document)']
-TECHNIQUE = ('Coq proofs about a hand-written model of the doc-action interpreter and the migration driver (migration '
-             'bodies abstract) + exact differential replay of real migrations in the model + implementation oracle on '
-             'generated documents of every schema version')
-LEVEL_TEXT = ('kernel (weak). Kernel-checked for ALL migration functions, tdsets and action lists: a document at or '
-              'beyond the current version yields exactly the schemaVersion update, which rewrites one column of '
-              '_grist_DocInfo and nothing else; the driver runs exactly versions doc_version+1..current, each once, in '
-              'order, each on its predecessor\'s tdset, returns their actions followed by the version update, and '
-              'adds no failure of its own; actions naming only _grist_ tables (more generally: not naming table u) '
-              'leave user tables (table u) untouched; the schema after applying actions is determined by the '
-              'Add/Remove/Rename/Modify Column|Table subsequence. For the six JSON-reading sites (raise-only model of '
-              'the guarded source, fix 5a4118c): C25_json_sites_total - no valid JSON of any shape makes a site '
-              'raise; the pre-repair witnesses are regression Examples. NOT proved: that the 46 real migration bodies never '
-              'raise and reach schema_create_actions() on all type-correct metadata (C25_full_statement stays a '
-              'Definition) - this is covered only by the differential link and the search on generated documents of '
-              'every version (it found eight defects: seven repaired in /repo, their witnesses stay in the search '
-              'corpus; migration 7 on a table named Summary_<T> is still a known finding).')
-LEVEL_NOTE = ('Weak on purpose: the migration bodies are Section variables. Trusted: Coq kernel, the hand-written model '
-              '(tied by exact replay each run), json/re and the unmodelled prelude. The search premise adds referential '
-              'consistency to type-correct cells; inconsistent documents are a counted robustness stream.')
+TECHNIQUE = ('Coq proofs about hand-written and translated models of the doc-action interpreter, the migration driver and '
+             'all 46 migration bodies + exact differential replay of the real migrations in the models + implementation '
+             'oracle on generated documents of every schema version')
+LEVEL_TEXT = ('kernel. Driver and interpreter, for ALL migration functions: a current document yields only the '
+              'schemaVersion update (one column of _grist_DocInfo); the driver runs exactly versions doc_version+1..current '
+              'once each in order and adds no failure of its own; actions not naming a table leave it untouched; the schema '
+              'is determined by the schema-action subsequence. Migration BODIES (all 46 modelled, each tied to the real '
+              'emitted actions on every run): proved total - the body returns for every Text cell content (JSON parsing an '
+              'oracle: any value or failure) and what it emits applies - on documents satisfying a stated, decidable, '
+              'type-correctness premise for migrations 4, 10, 15, 16, 29, 34, 35, 39, 45 and for the 24 constant-body '
+              'migrations 5, 6, 8, 9, 11, 12, 13, 18, 19, 21, 22, 23, 24, 27, 32, 33, 36, 37, 38, 41, 42, 43, 44, 46 '
+              '(generic theorem on translated lists) = 33 of 46; migration 7: the body returns under the premise that '
+              'excludes names like Summary_Foo (C25_m7_body_total) and raises without it (C25_m7_refuted, the known '
+              'finding); migration 14: constant body. NOT proved total (modelled and tied only): 1, 2, 3, 17, 20, 25, 26, '
+              '28, 30, 31, 40, the application of what 7 and 14 emit, and that the metadata schema reached equals '
+              'schema_create_actions() (searched on generated documents of every version).')
+LEVEL_NOTE = ('Trusted: Coq kernel; the hand-written models (each tied by exact replay every run); the oracles json, re, '
+              'identifiers.pick_*_ident, float division; the unmodelled loading prelude. The premises of the totality '
+              'theorems are evaluated on every generated document (they hold on all of them).')
 
 GRIST = '_grist_'
 
@@ -460,6 +466,28 @@ def run_doc(doc, metadata_only=False):
       return out
   if not hasattr(migrations, 'json') or not hasattr(summary, 'json'):
     raise core.TieBroken('migrations.json / summary.json: instrumentation points not found')
+  import re as _re
+  r.resubs = []                     # (pattern, replacement or '' for a function, text, result): the re.sub oracle
+  class PatSpy(object):
+    def __init__(self, pat):
+      self._p = pat
+    def __getattr__(self, name):
+      return getattr(self._p, name)
+    def sub(self, repl, string, *a, **k):
+      out = self._p.sub(repl, string, *a, **k)
+      r.resubs.append((self._p.pattern, '' if callable(repl) else repl, string, out))
+      return out
+  class ReSpy(object):
+    def __getattr__(self, name):
+      return getattr(_re, name)
+    def compile(self, pattern, *a, **k):
+      return PatSpy(_re.compile(pattern, *a, **k))
+    def sub(self, pattern, repl, string, *a, **k):
+      out = _re.sub(pattern, repl, string, *a, **k)
+      r.resubs.append((pattern, '' if callable(repl) else repl, string, out))
+      return out
+  if not hasattr(migrations, 're'):
+    raise core.TieBroken('migrations.re: instrumentation point not found')
   import identifiers
   if getattr(migrations, 'identifiers', None) is not identifiers or not hasattr(identifiers, 'pick_col_ident'):
     raise core.TieBroken('migrations.identifiers.pick_col_ident / pick_table_ident: instrumentation points not found')
@@ -479,6 +507,7 @@ def run_doc(doc, metadata_only=False):
       migrations.all_migrations[v] = wrap(v, saved.get(v, migrations.noop_migration))
     migrations.table_data_set = FakeMod
     migrations.json = summary.json = JsonSpy
+    migrations.re = ReSpy()
     identifiers.pick_col_ident = spy_pick('col', saved_picks[0])
     identifiers.pick_table_ident = spy_pick('table', saved_picks[1])
     try:
@@ -490,6 +519,7 @@ def run_doc(doc, metadata_only=False):
     migrations.all_migrations.update(saved)
     migrations.table_data_set = saved_tds
     migrations.json = summary.json = json
+    migrations.re = _re
     identifiers.pick_col_ident, identifiers.pick_table_ident = saved_picks
   if len(seen) != 1:
     raise core.TieBroken('create_migrations no longer builds exactly one TableDataSet (%d)' % len(seen))
@@ -1133,7 +1163,15 @@ def correspond(ctx):
   # 2. real migrations on generated documents of every version: driver model + the returned actions replayed
   lcases, runs = [], []
   empty = ({}, {})
-  for doc in doc_stream(ctx, ctx.n(1, 4), 'mixed'):
+  def link_docs():
+    for doc in doc_stream(ctx, ctx.n(1, 4), 'mixed'):
+      yield doc
+    # the hand-modelled bodies of early migrations run on few of those: extra documents just below each of them
+    for v in HAND_MODELLED:
+      if v <= 20:
+        for _ in range(ctx.n(1, 4)):
+          yield gen_doc(ctx.rng, v - 1, ctx.rng.choice(['expected', 'anyjson']), None)
+  for doc in link_docs():
     mo = ctx.rng.random() < 0.3
     r = run_doc(doc, mo)
     needall = r.exc is not None and str(r.exc).startswith('need all tables')
@@ -1444,7 +1482,7 @@ def site_cases(ctx):
 # ---------------------------------------------------------------------------------------------
 # Modelled migration BODIES (Model/MigrateBodies.v): oracle tables for one run, and the case term
 
-HAND_MODELLED = [7, 10, 15, 16, 29, 34, 35, 45]          # versions whose body Model/MigrateBodies.v models (body_of)
+HAND_MODELLED = [1, 2, 3, 4, 7, 10, 15, 16, 17, 20, 25, 26, 28, 29, 30, 31, 34, 35, 39, 40, 45]          # versions whose body Model/MigrateBodies.v models (body_of)
 
 
 def modelled():
@@ -1524,7 +1562,15 @@ def oracles_term(r):
   summ = core.coq_list(['(%s, %s)' % (cstr(n), groups(n)) for n in names])
   pt = core.coq_list(['((%s, %s), %s)' % (cstr(ident), core.coq_list([cstr(a) for a in avoid]), cstr(out))
                       for name, ident, avoid, out in r.picks if name == 'table'])
-  return '(mkOracles %s %s %s %s %s %s %s %s)' % (ptab, d1, d2, stab, pc, core.coq_list(strj), summ, pt)
+  rs, seen_rs = [], set()
+  for pat, repl, text, out in r.resubs:
+    if not all(isinstance(x, str) for x in (pat, repl, text, out)):
+      raise Unencodable('re.sub on non-strings')
+    if (pat, repl, text) not in seen_rs:
+      seen_rs.add((pat, repl, text))
+      rs.append('((%s, %s, %s), %s)' % (cstr(pat), cstr(repl), cstr(text), cstr(out)))
+  return '(mkOracles %s %s %s %s %s %s %s %s %s)' % (ptab, d1, d2, stab, pc, core.coq_list(strj), summ, pt,
+                                                      core.coq_list(rs))
 
 
 def summary_regex():
